@@ -339,7 +339,8 @@ def judge_table_result(world, op, out, po, what):
         k = (row[1], row[2])
         seen[k] += 1
         if k not in po.verdict:
-            vs.append(V('unknown_key', [base_s or 'C11'],
+            vs.append(V('unknown_key', [base_s or 'C11'] +
+                        (['C11'] if base_s else []),
                         '%s %s unknown-key' % (base_s or 'C11', comp),
                         'output row names key pair %r which does not exist'
                         % (k,)))
@@ -1091,10 +1092,12 @@ def run_history_op(case, world, idx, op, results, rep, cpus):
 def home_props(world, op):
     k = op['op']
     if k == 'join':
-        return ['C03'] if op['measure'] == 'EDIT_DISTANCE' else ['C01', 'C02']
+        return (['C03'] if op['measure'] == 'EDIT_DISTANCE'
+                else ['C01', 'C02']) + ['C11']
     if k in ('filter_tables', 'filter_pair'):
         fs = world.case['filters'].get(op['filter'], {})
-        return ['C04'] + (['C06'] if fs.get('kind') == 'OverlapFilter' else [])
+        return ['C04'] + (['C06'] if fs.get('kind') == 'OverlapFilter'
+                          else []) + (['C11'] if k == 'filter_tables' else [])
     if k == 'filter_candset':
         return ['C04', 'C06']
     if k == 'apply_matcher':
